@@ -165,6 +165,10 @@ func main() {
 			}
 		}
 	}
+	// the largest packets the 3-byte length field allows, both directions
+	for _, init := range []bool{true, false} {
+		cases = append(cases, caseSpec{Kind: "interop", ImplInit: init, Net: nets[0], GI: 1, GR: 2, NPk: 3, Sched: "big", PrefixK: -1, KeyIdx: 2, ImplKey: 28})
+	}
 	var doneC int64
 	var sampled int64
 	protect(r, func() {
